@@ -216,7 +216,9 @@ def r_cond(c) -> str:
     if k in ("fpred", "cpred"):
         return f"{c[1]}({', '.join(r_term(a) for a in c[2])})"
     if k == "hastype":
-        return f"HasType({r_term(c[1])}, {c[2]})"
+        form = c[3] if len(c) > 3 else "kw"
+        return {"pos": f"HasType({r_term(c[1])}, {c[2]})", "pos_kw": f"HasType({r_term(c[1])}, types_={c[2]})",
+                "kw_rev": f"HasType(types_={c[2]}, variable={r_term(c[1])})"}.get(form, f"HasType(variable={r_term(c[1])}, types_={c[2]})")
     if k == "and":
         if c[1] == "nary":
             return "and_(" + ", ".join(r_cond(x) for x in c[2]) + ")"
